@@ -119,38 +119,177 @@ def build(spec):
     return part
 
 
-def apply_edit(part, spec):
-    """Second step of a history: change the SAME part through the public API (spec['edit']) and return
-    the spec describing the part as it is now.  Edits: {"add_repeat": [a, b]} a simple repeat over measures
-    a..b, {"remove_repeat": i} the i-th simple repeat, {"add_notes": [note rows]} further notes."""
-    import partitura.score as S
-    ed = spec["edit"]
+NAV_KEYS = ("coda", "tocoda", "dacapo", "fine", "segno", "dalsegno")
+MARK_OPS = ("add_repeat", "remove_repeat", "renumber", "set_nav", "drop_endings", "add_endings")
+
+
+def bounds_of(spec):
     t0 = spec.get("t0", 0)
     bounds = [t0]
     for ln in spec["measures"]:
         bounds.append(bounds[-1] + ln)
-    s2 = json.loads(json.dumps(spec))
-    del s2["edit"]
+    return bounds
+
+
+def history_of(spec):
+    """The operations applied to the SAME Part object after it has been built and unfolded once; after each
+    of them every entry point is run again.  (`edit` is the one-step form of earlier rounds.)"""
+    if spec.get("history"):
+        return spec["history"]
+    ed = spec.get("edit")
+    if not ed:
+        return []
+    out = []
+    if "add_repeat" in ed:
+        out.append({"op": "add_repeat", "span": ed["add_repeat"], "via": "part"})
+    if "remove_repeat" in ed:
+        out.append({"op": "remove_repeat", "index": ed["remove_repeat"], "via": "part"})
+    if ed.get("add_notes"):
+        out.append({"op": "add_notes", "notes": ed["add_notes"]})
+    return out
+
+
+def group_endings(spec, gi):
+    """Indices into spec['endings'] of the brackets of volta group gi, in order."""
+    g = spec["volta_groups"][gi]
+    out = []
+    for es, ee, _ in g[1]:
+        out.append([i for i, e in enumerate(spec["endings"]) if (e[0], e[1]) == (es, ee)][0])
+    return out
+
+
+def number_text(op, j):
+    """The value assigned to Ending.number by a renumber operation: a string ("1", "1,2", "1, 2") or, for a single
+    number with sep "int", an int (the documented type)."""
+    nums = op["numbers"][j]
+    if op.get("sep") == "int":
+        return nums[0] if len(nums) == 1 else ", ".join(str(x) for x in nums)
+    return op.get("sep", ",").join(str(x) for x in nums)
+
+
+def spec_after(spec, op):
+    """The spec describing the part as it is after `op` (pure; the part itself is changed by apply_op)."""
+    s = json.loads(json.dumps(spec))
+    for k in ("history", "edit", "score_with"):
+        s.pop(k, None)
+    what = op["op"]
+    if what == "add_segments":
+        s["add_segments"] = True
+    elif what == "drop_segments":
+        s.pop("add_segments", None)
+    elif what == "add_repeat":
+        s.setdefault("repeats", []).append(list(op["span"]))
+    elif what == "remove_repeat":
+        s["repeats"].pop(op["index"])
+    elif what == "renumber":
+        g = s["volta_groups"][op["group"]]
+        for j, i in enumerate(group_endings(s, op["group"])):
+            s["endings"][i][2] = number_text(op, j)
+            g[1][j][2] = list(op["numbers"][j])
+    elif what == "set_nav":
+        for k in NAV_KEYS:
+            s.pop(k, None)
+        for k, v in op["nav"].items():
+            if v:
+                s[k] = list(v)
+    elif what == "add_notes":
+        s["notes"] = s.get("notes", []) + [list(n) for n in op["notes"]]
+    elif what == "remove_note":
+        s["notes"] = [n for n in s["notes"] if n[0] != op["id"]]
+    elif what == "drop_endings":
+        idx = set(group_endings(s, op["group"]))
+        s["endings"] = [e for i, e in enumerate(s["endings"]) if i not in idx]
+        s["volta_groups"].pop(op["group"])
+    elif what == "add_endings":
+        a, b = op["at"]
+        s.setdefault("endings", []).extend([[b - 1, b, "1"], [b, b + 1, "2"]])
+        s.setdefault("volta_groups", []).append([a, [[b - 1, b, [1]], [b, b + 1, [2]]]])
+    elif what != "call":
+        raise ValueError("unknown history operation %r" % (op,))
+    return s
+
+
+def apply_op(part, spec, op):
+    """One operation of a history on the Part object built from `spec` (public API: Part.add / Part.remove,
+    the TimePoint methods add_starting_object / ..., assignment to Ending.number, add_segments); returns the
+    spec describing the part as it is now.  A part whose Segment objects are registered (add_segments) is
+    refreshed the documented way -- add_segments(part, force_new=True) -- after every change of its marks."""
+    import partitura.score as S
+    bounds = bounds_of(spec)
+    what = op["op"]
+    via_tp = op.get("via") == "timepoint"
 
     def tag(o):
         o._pv = part._pv_next
         part._pv_next += 1
         return o
 
-    if "add_repeat" in ed:
-        a, b = ed["add_repeat"]
-        part.add(tag(S.Repeat()), bounds[a], bounds[b])
-        s2.setdefault("repeats", []).append([a, b])
-    if "remove_repeat" in ed:
-        a, b = s2["repeats"].pop(ed["remove_repeat"])
-        victim = [r for r in part.iter_all(S.Repeat) if (r.start.t, r.end.t) == (bounds[a], bounds[b])][0]
-        part.remove(victim)
-    for nid, kind, m, on, dur, pitch, voice, staff in ed.get("add_notes", []):
-        step, alter, octave = STEPS[pitch % 7], (pitch // 7) % 3 - 1, 2 + (pitch // 21) % 4
-        part.add(tag(S.Note(step, octave, alter or None, id=nid, voice=voice, staff=staff)),
-                 bounds[m] + on, bounds[m] + on + dur)
-        s2["notes"].append([nid, kind, m, on, dur, pitch, voice, staff])
-    if spec.get("add_segments"):
+    def add(o, start, end=None):
+        if via_tp:
+            part.get_or_add_point(start).add_starting_object(o)
+            if end is not None:
+                part.get_or_add_point(end).add_ending_object(o)
+        else:
+            part.add(o, start, end)
+
+    def remove(o):
+        if via_tp:
+            st, en = o.start, o.end
+            if st is not None:
+                st.remove_starting_object(o)
+            if en is not None:
+                en.remove_ending_object(o)
+        else:
+            part.remove(o)
+
+    def find(cls, start, end=None):
+        return [o for o in part.iter_all(cls) if o.start.t == start and (end is None or (o.end is not None and o.end.t == end))][0]
+
+    navcls = {"coda": S.Coda, "tocoda": S.ToCoda, "dacapo": S.DaCapo, "fine": S.Fine, "segno": S.Segno,
+              "dalsegno": S.DalSegno}
+    if what == "add_segments":
+        S.add_segments(part, force_new=bool(op.get("force")))
+    elif what == "drop_segments":
+        for sg in list(part.iter_all(S.Segment)):
+            part.remove(sg)
+    elif what == "add_repeat":
+        a, b = op["span"]
+        add(tag(S.Repeat()), bounds[a], bounds[b])
+    elif what == "remove_repeat":
+        a, b = spec["repeats"][op["index"]]
+        remove(find(S.Repeat, bounds[a], bounds[b]))
+    elif what == "renumber":
+        for j, i in enumerate(group_endings(spec, op["group"])):
+            es, ee, _ = spec["endings"][i]
+            find(S.Ending, bounds[es], bounds[ee]).number = number_text(op, j)
+    elif what == "set_nav":
+        for k in NAV_KEYS:
+            old, new = spec.get(k, []), op["nav"].get(k, [])
+            for x in old:
+                if x not in new:
+                    remove(find(navcls[k], bounds[x]))
+            for x in new:
+                if x not in old:
+                    add(tag(navcls[k]()), bounds[x])
+    elif what == "add_notes":
+        for nid, kind, m, on, dur, pitch, voice, staff in op["notes"]:
+            step, alter, octave = STEPS[pitch % 7], (pitch // 7) % 3 - 1, 2 + (pitch // 21) % 4
+            part.add(tag(S.Note(step, octave, alter or None, id=nid, voice=voice, staff=staff)),
+                     bounds[m] + on, bounds[m] + on + dur)
+    elif what == "remove_note":
+        part.remove([n for n in part.iter_all(S.GenericNote, include_subclasses=True) if n.id == op["id"]][0])
+    elif what == "drop_endings":
+        for i in group_endings(spec, op["group"]):
+            es, ee, _ = spec["endings"][i]
+            remove(find(S.Ending, bounds[es], bounds[ee]))
+    elif what == "add_endings":
+        a, b = op["at"]
+        add(tag(S.Ending("1")), bounds[b - 1], bounds[b])
+        add(tag(S.Ending("2")), bounds[b], bounds[b + 1])
+    elif what != "call":
+        raise ValueError("unknown history operation %r" % (op,))
+    s2 = spec_after(spec, op)
+    if what in MARK_OPS and s2.get("add_segments"):
         S.add_segments(part, force_new=True)       # the documented way to refresh registered segments
     return s2
 
@@ -165,7 +304,7 @@ def marks_of(part):
     import partitura.score as S
 
     reps = [(r.start.t, r.end.t) for r in part.iter_all(S.Repeat) if r.start is not None and r.end is not None]
-    ends = [(v.start.t, v.end.t, [int(n) for n in v.number.split(",")])
+    ends = [(v.start.t, v.end.t, [int(n) for n in str(v.number).split(",")])
             for v in part.iter_all(S.Ending) if v.start is not None and v.end is not None]
     pts = lambda cls: [c.start.t for c in part.iter_all(cls)]
     return {"first": part.first_point.t, "last": part.last_point.t, "repeats": reps, "endings": ends,
@@ -447,7 +586,10 @@ def run_impl(spec, variant_budget=6, rng=None, part=None):
     r.paths = {}
     r.pathobjs = {}
     r.errors = {}
-    for pol in POLICIES:
+    order = list(POLICIES)
+    if rng is not None:
+        rng.shuffle(order)     # no call may depend on the options of the call before it
+    for pol in order:
         ids, objs, err = impl_paths(part, pol)
         r.paths[pol] = ids
         r.pathobjs[pol] = objs
@@ -469,13 +611,15 @@ def run_impl(spec, variant_budget=6, rng=None, part=None):
         u._pv_entry = entry          # Coq term naming the entry point (Model/C09_api.v: entry)
         return u
 
-    for il in (True, False):
+    combos = [(il, upd) for il in (True, False) for upd in (True, False)]
+    if rng is not None:
+        rng.shuffle(combos)
+    for il, upd in combos:
         ps = r.paths[(False, True, il)]
         if ps:
-            for upd in (True, False):
-                call("unfold_part_maximal(update_ids=%s, ignore_leaps=%s)" % (upd, il), ps[0], upd,
-                     lambda upd=upd, il=il: tagged(S.unfold_part_maximal(part, update_ids=upd, ignore_leaps=il),
-                                                   "(EMaximal %s)" % cbool(il)))
+            call("unfold_part_maximal(update_ids=%s, ignore_leaps=%s)" % (upd, il), ps[0], upd,
+                 lambda upd=upd, il=il: tagged(S.unfold_part_maximal(part, update_ids=upd, ignore_leaps=il),
+                                               "(EMaximal %s)" % cbool(il)))
     ps = r.paths[(True, False, True)]
     if ps:
         call("unfold_part_minimal", ps[0], False, lambda: tagged(S.unfold_part_minimal(part), "EMinimal"))
@@ -536,19 +680,41 @@ def run_impl(spec, variant_budget=6, rng=None, part=None):
                                        tagged(u, c_align_entry(r, r.alignment_input))))
                 except Exception as e:  # noqa
                     r.crashes.append(("unfold_part_alignment", "%s: %s" % (type(e).__name__, e)))
+    # the unfolded part unfolded again
+    r.reunfold = []
+    if r.variants:
+        v = r.variants[0] if rng is None else rng.choice(r.variants)
+        r.reunfold = [(k, "%s [path %s]: %s" % (v[0], "-".join(chr(65 + i) for i in v[1]), m), {"call": v[0]})
+                      for k, m in oracle_reunfold(v[3])]
     r.fp1 = fingerprint(part)
     return r
 
 
-def score_level(spec, spec_b):
+def score_level(spec, spec_b, hist=()):
     """unfold_part_maximal / unfold_part_minimal on a Score of two parts: the result is a new Score whose
-    parts are the unfoldings of the parts, and neither the Score nor its parts are modified.
+    parts are the unfoldings of the parts, and neither the Score nor its parts are modified.  With a history:
+    the first part is changed after the Score has been unfolded (the operations of the history) and the Score
+    is unfolded again -- the result follows the part as it is now.
     Returns a list of (kind, message)."""
-    import partitura.score as S
     bad = []
     pa, pb = build(spec), build(spec_b)
     pb.id = "P2"
+    import partitura.score as S
     sc = S.Score([pa, pb], id="sc")
+    bad += score_round(sc, pa, pb)
+    if hist and not bad:
+        cur = spec
+        for op in hist:
+            cur = apply_op(pa, cur, op)
+        fresh = build({k: v for k, v in cur.items() if k != "add_segments"})
+        bad += [(k, "after %s on the first part of the Score unfolded before: %s" % (json.dumps(list(hist)), m))
+                for k, m in score_round(sc, pa, pb, fresh)]
+    return bad
+
+
+def score_round(sc, pa, pb, fresh=None):
+    import partitura.score as S
+    bad = []
     before = (list(sc.parts), [id(x) for x in sc.parts], fingerprint(pa), fingerprint(pb))
     intern_a, intern_b = {}, {}
     dump_original(pa, intern_a)
@@ -559,7 +725,7 @@ def score_level(spec, spec_b):
              ("unfold_part_minimal(Score)", lambda x: S.unfold_part_minimal(x))]
     for label, f in calls:
         try:
-            want = [f(pa), f(pb)]
+            want = [f(pa if fresh is None else fresh), f(pb)]
         except Exception:  # noqa
             continue       # an arrangement on which the path search raises for the part alone (judged there)
         try:
@@ -575,6 +741,9 @@ def score_level(spec, spec_b):
         for g, w, it, name in ((got.parts[0], want[0], intern_a, "first"), (got.parts[1], want[1], intern_b, "second")):
             rg, pg = dump_variant(g, it)
             rw, _ = dump_variant(w, it)
+            if fresh is not None and name == "first":
+                # compared with a freshly built part (other object tags): notes and length
+                rg, rw = (sorted(map(repr, got_notes(g))), g.last_point.t), (sorted(map(repr, got_notes(w))), w.last_point.t)
             if rg != rw or pg:
                 bad.append(("score", "%s: the %s part differs from the unfolding of that part alone%s"
                             % (label, name, (" (" + pg[0] + ")") if pg else "")))
@@ -1104,6 +1273,7 @@ def oracle(r):
                          "span": [u.first_point.t, u.last_point.t] if len(u._points) else None}))
     if hasattr(r, "alignment"):
         bad += [(k, m, {"call": "unfold_part_alignment", "alignment": r.alignment_input}) for k, m in oracle_alignment(r)]
+    bad += getattr(r, "reunfold", [])
     if r.fp0 != r.fp1:
         bad.append(("modified", "the original part was modified by path computation / unfolding", {}))
     return bad
@@ -1160,7 +1330,8 @@ def gen_structure(rng, kind):
             # a group at the very beginning may come without repeat signs: it repeats from the beginning
             signs = not (a == 0 and rng.random() < 0.35)
             for nums in b[2]:
-                st["endings"].append([m, m + 1, ",".join(str(x) for x in nums)])
+                st["endings"].append([m, m + 1, nums[0] if (len(nums) == 1 and rng.random() < 0.25)
+                                      else ",".join(str(x) for x in nums)])
                 grp.append([m, m + 1, list(nums)])
                 if signs and any(x != total for x in nums):
                     st["repeats"].append([a, m + 1])
@@ -1364,10 +1535,8 @@ def gen_spec(rng, kind=None, rich=True, top=True):
         if rng.random() < 0.25:
             spec["barlines"] = [n]
     spec.update({"notes": notes, "ties": ties, "graces": graces, "slurs": slurs, "tuplets": tuplets})
-    if top and rng.random() < 0.25:
-        ed = gen_edit(rng, spec)
-        if ed:
-            spec["edit"] = ed
+    if top and rng.random() < 0.36:
+        spec["history"] = gen_history(rng, spec)
     if top and rng.random() < 0.12:
         # the part is also unfolded as a member of a Score, next to a second part
         spec["score_with"] = gen_spec(rng, rich=False, top=False)
@@ -1375,27 +1544,91 @@ def gen_spec(rng, kind=None, rich=True, top=True):
     return spec
 
 
-def gen_edit(rng, spec):
-    """A change made to the part after it has been unfolded once (second step of the history)."""
+VOLTA_ALTS = {2: [[[1], [2]], [[1, 2], [3]], [[1], [2, 3]], [[1, 2], [3, 4]], [[1, 2, 3], [4]]],
+              3: [[[1], [2], [3]], [[1, 2], [3], [4]], [[1], [2, 3], [4]], [[1], [2], [3, 4]]]}
+
+
+def volta_signature(nums):
+    """Which brackets of a group end with a repeat sign: those holding a number that is not the last pass."""
+    total = max(x for e in nums for x in e)
+    return tuple(any(x != total for x in e) for e in nums)
+
+
+def history_candidates(rng, spec):
+    """The operations applicable to the part described by `spec`, as (weight, op) -- every way the repeat
+    structure (or what is repeated) can change between two unfoldings."""
     bb, n = spec["bb"], len(spec["measures"])
-    used = [(a, b) for a, b in spec.get("repeats", [])] + [(a, b) for a, b, _ in spec.get("endings", [])]
+    reps = spec.get("repeats", [])
+    ends = spec.get("endings", [])
+    groups = spec.get("volta_groups", [])
+    via = lambda: rng.choice(["part", "timepoint"])
+    used = [(a, b) for a, b in reps] + [(a, b) for a, b, _ in ends]
     free = [(bb[i], bb[i + 1]) for i in range(len(bb) - 1)
             if bb[i] < bb[i + 1] and all(b <= bb[i] or bb[i + 1] <= a for a, b in used)]
-    options = ["note"]
+    out = [(1, {"op": "call"})]
+    out.append((2, {"op": "drop_segments"} if spec.get("add_segments") else {"op": "add_segments", "force": rng.random() < 0.3}))
+    if spec.get("add_segments"):
+        out.append((1, {"op": "add_segments", "force": rng.random() < 0.5}))
+    # simple repeats added / removed
     if free:
-        options += ["add", "add"]
-    simple = (not spec.get("endings") and spec.get("repeats")
-              and all(a < b for a, b in spec["repeats"])
-              and all(x[1] <= y[0] for x, y in zip(sorted(spec["repeats"]), sorted(spec["repeats"])[1:])))
-    if simple:
-        options += ["remove", "remove"]
-    what = rng.choice(options)
-    if what == "add":
-        return {"add_repeat": list(rng.choice(free))}
-    if what == "remove":
-        return {"remove_repeat": rng.randrange(len(spec["repeats"]))}
+        out.append((3, {"op": "add_repeat", "span": list(rng.choice(free)), "via": via()}))
+    gend = {g[0]: g[1][-1][1] for g in groups}
+    removable = [i for i, (a, b) in enumerate(reps) if not (a in gend and b <= gend[a])]
+    if removable:
+        out.append((3, {"op": "remove_repeat", "index": rng.choice(removable), "via": via()}))
+    # ending numbers assigned in place
+    for gi, g in enumerate(groups):
+        cur = [list(e[2]) for e in g[1]]
+        signs = any(a == g[0] and b <= gend[g[0]] for a, b in reps)
+        alts = [x for x in VOLTA_ALTS.get(len(cur), []) if x != cur
+                and (not signs or volta_signature(x) == volta_signature(cur))]
+        if alts:
+            out.append((8, {"op": "renumber", "group": gi, "numbers": rng.choice(alts), "sep": rng.choice([",", ", ", "int"])}))
+        out.append((2, {"op": "drop_endings", "group": gi, "via": via()}))
+    # a simple repeat of two or more measures followed by an unused measure gets a first and second ending
+    spans_used = lambda x, y: any(a < y and x < b for a, b in used)
+    cand = [(a, b) for a, b in reps if b - a >= 2 and b + 1 <= n and (a, b) in [tuple(r) for r in reps]
+            and not any(es < b and a < ee for es, ee, _ in ends) and not spans_used(b, b + 1)
+            and sum(1 for r in reps if r[0] < b and a < r[1]) == 1]
+    marks = [x for k in NAV_KEYS for x in spec.get(k, [])]
+    cand = [(a, b) for a, b in cand if not any(a < m < b + 1 for m in marks)]
+    if cand:
+        out.append((5, {"op": "add_endings", "at": list(rng.choice(cand)), "via": via()}))
+    # navigation marks added / moved / removed
+    e = 2 ** len(reps)
+    for g in groups:
+        e *= VOLTA_PATHS.get("|".join(",".join(str(x) for x in en[2]) for en in g[1]), 40)
+    has_nav = any(spec.get(k) for k in NAV_KEYS)
+    if has_nav:
+        out.append((2, {"op": "set_nav", "nav": {}, "via": via()}))
+    if e * (e + 1) <= 100:
+        st = {"bb": bb, "n": n, "repeats": reps, "endings": ends}
+        add_navigation(rng, st)
+        nav = {k: st[k] for k in NAV_KEYS if st.get(k)}
+        if nav and nav != {k: spec[k] for k in NAV_KEYS if spec.get(k)}:
+            out.append((5 if has_nav else 3, {"op": "set_nav", "nav": nav, "via": via()}))
+    # notes added / removed
     m = rng.randrange(n)
-    return {"add_notes": [["x0", "note", m, 0, spec["measures"][m], rng.randint(0, 80), 2, 1]]}
+    k = len(spec.get("notes", []))
+    out.append((2, {"op": "add_notes", "notes": [["x%d" % k, "note", m, 0, spec["measures"][m], rng.randint(0, 80), 2, 1]]}))
+    bound = {x for key in ("ties", "slurs", "tuplets", "graces") for pr in spec.get(key, []) for x in pr}
+    loose = [nt[0] for nt in spec.get("notes", []) if nt[1] == "note" and nt[0] not in bound]
+    if loose:
+        out.append((2, {"op": "remove_note", "id": rng.choice(loose)}))
+    return out
+
+
+def gen_history(rng, spec):
+    """1-3 operations on the part after its first unfolding."""
+    hist = []
+    cur = spec
+    for _ in range(rng.choice([1, 1, 2, 2, 3])):
+        cands = history_candidates(rng, cur)
+        op = rng.choices([c[1] for c in cands], [c[0] for c in cands])[0]
+        hist.append(op)
+        cur = spec_after(cur, op)
+        cur["bb"] = spec["bb"]
+    return hist
 
 
 def small_scope_specs():
@@ -1508,6 +1741,43 @@ def c_case(r, variants):
         clist([c_paths(pol, r.paths[pol]) for pol in POLICIES]), clist(vs), clist(es))
 
 
+HIST_POLICIES = [(False, False, True), (False, True, False), (True, False, True)]   # all variants / maximal, leaps / minimal
+
+
+def c_history(steps, hist):
+    """The history as the input of the state machine of Model/C09_hist.v: the operations (a change of the marks
+    carries the marks read from the part afterwards) and, per step, what the implementation gave (segments,
+    paths of the six policies)."""
+    items = []
+    r0 = steps[0][0]
+    if r0 is None or steps[0][2] is not None:
+        return None
+    registered = bool(steps[0][3].get("add_segments"))
+    if registered:
+        items.append("(HOp (OAddSegments false))")
+
+    def obs(r):
+        return "(HObs %s %s)" % (clist([c_seg(x) for x in r.segs]), clist([c_paths(pol, r.paths[pol]) for pol in HIST_POLICIES]))
+
+    items.append(obs(r0))
+    for op, (r, bad, skip, spec_n, label) in zip(hist, steps[1:]):
+        if r is None or skip is not None:
+            break
+        what = op["op"]
+        if what in MARK_OPS:
+            items.append("(HOp (OEdit %s %s))" % (cbool(op.get("via") != "timepoint" and what != "renumber"), c_marks(r.marks)))
+            if registered:
+                items.append("(HOp (OAddSegments true))")
+        elif what == "add_segments":
+            items.append("(HOp (OAddSegments %s))" % cbool(bool(op.get("force"))))
+            registered = True
+        elif what == "drop_segments":
+            items.append("(HOp ODropSegments)")
+            registered = False
+        items.append(obs(r))
+    return "(mkHist %s %s)" % (c_marks(r0.marks), clist(items))
+
+
 def pick_variants(r, sub, small=False):
     """The unfolded parts sent to the model: one of the maximal ones, the minimal one, one of
     new_part_from_path / make_score_variants, the part returned by unfold_part_alignment (else one more of
@@ -1566,24 +1836,120 @@ def examine(spec, rng=None, part=None):
 
 def examine_history(spec, rng=None):
     """All steps of a case: [(run | None, bad, skip, spec of the step, step label)].
-    Step 1: the part as built (after add_segments when the spec says so), every entry point; also as a member
-    of a Score when the spec says so.  Step 2 (spec['edit']): the same Part object changed through the public
-    API, every entry point again -- nothing computed in step 1 may survive the change."""
+    Step 0: the part as built (after add_segments when the spec says so), every entry point; also as a member
+    of a Score when the spec says so.  Step k (k-th operation of the history): the SAME Part object changed
+    through the public API or in place, every entry point again -- nothing computed in an earlier step may
+    survive: every observation is judged against the spec describing the part as it is NOW, against the model
+    evaluated on the marks read from the part NOW, and against a freshly built part with the same marks."""
     steps = []
     r, bad, skip = examine(spec, rng=rng)
     if r is not None and spec.get("score_with"):
         try:
-            sb = with_alarm(20, lambda: score_level(spec, spec["score_with"]))
+            sb = with_alarm(20, lambda: score_level(spec, spec["score_with"], history_of(spec)))
         except _Timeout:
             sb = []
         bad = bad + [(k, m, {"call": "Score"}) for k, m in sb]
     steps.append((r, bad, skip, spec, "as built"))
-    if r is not None and spec.get("edit") and skip is None:
-        spec2 = apply_edit(r.part, spec)
-        r2, bad2, skip2 = examine(spec2, rng=rng, part=r.part)
-        bad2 = [(k, "after the edit %s of the part unfolded before: %s" % (json.dumps(spec["edit"]), m), x) for k, m, x in bad2]
-        steps.append((r2, bad2, skip2, spec2, "after edit"))
+    cur = spec
+    hist = history_of(spec)
+    for k, op in enumerate(hist):
+        if r is None or skip is not None:
+            break
+        part = r.part
+        cur = apply_op(part, cur, op)
+        r, bad, skip = examine(cur, rng=rng, part=part)
+        if r is not None:
+            r.op = op
+            try:
+                bad = bad + [(kd, m, {"call": "fresh"}) for kd, m in with_alarm(20, lambda: oracle_fresh(r))]
+            except _Timeout:
+                pass
+        bad = [(kd, "after %s on the part unfolded before: %s" % (json.dumps(hist[:k + 1]), m), x) for kd, m, x in bad]
+        steps.append((r, bad, skip, cur, "after step %d" % (k + 1)))
     return steps
+
+
+def oracle_fresh(r):
+    """State carried between calls: the part `r.part` has a history (it was unfolded, changed, unfolded ...).
+    What it gives now must be what a freshly built part with the same marks and notes gives: segments, the paths
+    of every policy (as sets; the first path where the policy has an order: maximal / minimal), and the notes
+    and length of the maximal and minimal unfoldings."""
+    import partitura.score as S
+    spec = {k: v for k, v in r.spec.items() if k not in ("add_segments", "history", "edit", "score_with")}
+    fresh = build(spec)
+    bad = []
+    fsegs = impl_segments(fresh)
+    if [x[:3] for x in fsegs] != [x[:3] for x in r.segs]:
+        bad.append(("stale", "the part has the segments %r; a freshly built part with the same marks has %r"
+                    % ([x[1:3] for x in r.segs], [x[1:3] for x in fsegs])))
+        return bad
+    for pol in POLICIES:
+        ids, _, err = impl_paths(fresh, pol)
+        a = r.paths[pol]
+        if (a is None) != (ids is None):
+            bad.append(("stale", "get_paths%r %s; on a freshly built part with the same marks it %s"
+                        % (pol, "raises" if a is None else "returns", "raises" if ids is None else "returns")))
+            return bad
+        if a is None:
+            continue
+        if sorted(a) != sorted(ids) or ((pol[0] or pol[1]) and a[:1] != ids[:1]):
+            name = lambda ps: ["-".join(chr(65 + i) for i in p) for p in ps[:4]]
+            bad.append(("stale", "get_paths%r returns %r; on a freshly built part with the same marks %r"
+                        % (pol, name(a), name(ids))))
+            return bad
+    calls = {"unfold_part_maximal(update_ids=True, ignore_leaps=True)": lambda p: S.unfold_part_maximal(p, update_ids=True),
+             "unfold_part_maximal(update_ids=False, ignore_leaps=False)":
+                 lambda p: S.unfold_part_maximal(p, update_ids=False, ignore_leaps=False),
+             "unfold_part_minimal": lambda p: S.unfold_part_minimal(p)}
+    for label, path, upd, u in r.variants:
+        if label in calls:
+            try:
+                uf = calls[label](fresh)
+            except Exception as e:  # noqa
+                bad.append(("stale", "%s works on the part with a history but raises %s on a freshly built one" % (label, type(e).__name__)))
+                continue
+            if Counter(got_notes(u)) != Counter(got_notes(uf)) or u.last_point.t != uf.last_point.t:
+                bad.append(("stale", "%s of the part differs from that of a freshly built part with the same marks and "
+                            "notes (%d notes, length %d; fresh: %d notes, length %d)"
+                            % (label, len(u.notes), u.last_point.t, len(uf.notes), uf.last_point.t)))
+                break
+    return bad
+
+
+def oracle_reunfold(u):
+    """An unfolded part has no repeat structure left: unfolding it again gives one path of one segment and an
+    equal part, through every entry point."""
+    import partitura.score as S
+    if len(u._points) == 0:
+        return []
+    bad = []
+    try:
+        # (Fine / Segno / Coda signs are no jump instructions and may remain: they cut the part into segments
+        # that are played once, in order)
+        straight = [sg.id for sg in sorted(u.segments, key=lambda sg: sg.start.t)]
+        for pol in POLICIES:
+            ps = S.get_paths(u, no_repeats=pol[0], all_repeats=pol[1], ignore_leap_info=pol[2])
+            if [list(p.path) for p in ps] != [straight]:
+                bad.append(("reunfold", "get_paths%r of the unfolded part gives %r, not its segments once in order %r: "
+                            "repeat structure remains" % (pol, [list(p.path) for p in ps][:3], straight)))
+                return bad
+        want = Counter(got_notes(u))
+        again = [("unfold_part_maximal", S.unfold_part_maximal(u, update_ids=False)),
+                 ("unfold_part_minimal", S.unfold_part_minimal(u))]
+        its = list(S.iter_unfolded_parts(u, update_ids=False))
+        if len(its) != 1:
+            bad.append(("reunfold", "iter_unfolded_parts of the unfolded part yields %d parts" % len(its)))
+        else:
+            again.append(("iter_unfolded_parts", its[0]))
+        for name, v in again:
+            if Counter(got_notes(v)) != want or (v.first_point.t, v.last_point.t) != (u.first_point.t, u.last_point.t):
+                bad.append(("reunfold", "%s of the unfolded part is not an equal part (%d notes, span %d..%d; was %d notes, "
+                            "span %d..%d)" % (name, len(v.notes), v.first_point.t, v.last_point.t, len(u.notes),
+                                              u.first_point.t, u.last_point.t)))
+                break
+    except Exception as e:  # noqa
+        bad.append(("reunfold", "unfolding the unfolded part raised %s: %s" % (type(e).__name__, e)))
+    return bad
 
 
 def shrink(spec, kind):
@@ -1596,11 +1962,27 @@ def shrink(spec, kind):
         return any(b[0] == kind for st in steps for b in st[1])
 
     s = dict(spec)
-    for key in ("score_with", "edit", "add_segments", "t0"):
+    if s.get("edit") and not s.get("history"):
+        s["history"] = history_of(s)
+        del s["edit"]
+    for key in ("score_with", "history", "add_segments", "t0"):
         if key in s:
             t = {k: v for k, v in s.items() if k != key}
             if fails(t):
                 s = t
+    if s.get("history"):
+        # the shortest failing prefix, then without each of the remaining operations
+        for k in range(1, len(s["history"])):
+            if fails(dict(s, history=s["history"][:k])):
+                s = dict(s, history=s["history"][:k])
+                break
+        i = 0
+        while i < len(s["history"]) and len(s["history"]) > 1:
+            t = dict(s, history=s["history"][:i] + s["history"][i + 1:])
+            if fails(t):
+                s = t
+            else:
+                i += 1
     for key in ("slurs", "tuplets", "ties", "graces", "fermatas", "words", "pages", "barlines", "qdchanges"):
         if s.get(key):
             t = dict(s)
@@ -1638,8 +2020,21 @@ def classify(spec):
 def is_k2(obj):
     """Matcher of known finding C09-K2: get_paths raises on an arrangement whose jump (D.C. / D.S.) returns to a
     segment that ends at the jump mark itself or (not being the first segment) at the To Coda mark."""
-    spec = (obj.get("spec_after_edit") if obj.get("step") == "after edit" else obj.get("spec")) or {}
+    spec = obj.get("spec_current") or (obj.get("spec_after_edit") if obj.get("step") == "after edit" else obj.get("spec")) or {}
     return obj.get("kind") == "total" and bool(spec.get("measures")) and nav_reference(spec, "max", True) == "K2"
+
+
+def is_k3(obj):
+    """Matcher of known finding C09-K3: the navigation oracle on an arrangement with a To Coda mark directly after a
+    volta group whose last bracket is itself repeated (holds a number that is not the last pass)."""
+    spec = obj.get("spec_current") or obj.get("spec") or {}
+    if obj.get("kind") != "navigation" or not spec.get("tocoda") or not (spec.get("dacapo") or spec.get("dalsegno")):
+        return False
+    for g in spec.get("volta_groups", []):
+        nums = [e[2] for e in g[1]]
+        if volta_signature(nums)[-1] and g[1][-1][1] in spec["tocoda"]:
+            return True
+    return False
 
 
 def work(item):
@@ -1651,10 +2046,13 @@ def work(item):
     except Exception as e:  # building the part failed: harness problem, report loudly
         return {"idx": idx, "error": "%s: %s" % (type(e).__name__, e), "steps": []}
     out = {"idx": idx, "steps": []}
+    if history_of(spec):
+        out["hist_ops"] = [o["op"] + (":" + o["via"] if o.get("via") == "timepoint" else "") for o in history_of(spec)]
+        out["hist_term"] = c_history(steps, history_of(spec))
     for r, bad, skip, spec_n, label in steps:
         st = {"label": label, "skip": skip, "bad": bad}
-        if bad and label == "after edit":
-            st["spec_after_edit"] = spec_n
+        if bad and label != "as built":
+            st["spec_current"] = {k: v for k, v in spec_n.items() if k != "bb"}
         if r is not None:
             st.update(nsegs=len(r.segs), nvariants=len(r.variants),
                       branching=any(len(x[3]) + len(x[4]) >= 2 for x in r.segs),
@@ -1707,9 +2105,10 @@ def run(ctx):
                        "repeats/endings and marks outside repeated sections; a repeated section ending at the jump "
                        "mark and a Coda directly at the jump mark followed by repeats are compared with the model only"]
     ctx.matchers["C09-K2"] = is_k2
+    ctx.matchers["C09-K3"] = is_k3
     rng = ctx.rng
     quick = ctx.tier == "quick"
-    n_random = 200 if quick else 2400
+    n_random = 150 if quick else 2400
     specs = []
     cdir = os.path.join(core.VERIF, "corpus", "C09")
     if os.path.isdir(cdir):
@@ -1728,7 +2127,7 @@ def run(ctx):
     nproc = max(1, min(core.NJOBS, len(items)))
     pool = multiprocessing.get_context("fork").Pool(nproc)
     results = pool.imap(work, items, chunksize=2 if quick else 8)
-    ok, why = ctx.coq_props(expect_min=34)
+    ok, why = ctx.coq_props(expect_min=40)
     shard = 24 if quick else 60
     executor = ThreadPoolExecutor(max_workers=max(1, core.NJOBS))
     futures = []          # (first global index, future)
@@ -1744,11 +2143,20 @@ def run(ctx):
                 terms[lo:hi], "fun c => Z.eqb (check_case_api c) 0", hi - lo, 1500)))
 
     nviol = 0
+    hterms, hkept = [], []
     for res in results:
         origin, spec = specs[res["idx"]]
         if "error" in res:
             ctx.violation("harness could not build/run spec: %s" % res["error"], {"spec": spec, "kind": "harness"}, no_input=True)
             continue
+        for o in res.get("hist_ops", []):
+            ctx.count("history:" + o)
+        if res.get("hist_ops"):
+            ctx.count("histories")
+            ctx.count("histories_of_length_%d" % len(res["hist_ops"]))
+        if res.get("hist_term"):
+            hterms.append(res["hist_term"])
+            hkept.append(spec)
         ctx.count("kind:" + spec.get("kind", "?"))
         for f in classify(spec):
             ctx.count("feature:" + f)
@@ -1761,7 +2169,7 @@ def run(ctx):
                 ctx.count("small:more_than_5_segments")
                 continue
             ctx.evaluations += 1
-            ctx.count("step:" + label)
+            ctx.count("step:" + ("as built" if label == "as built" else "after a change of the part"))
             ctx.count("variants", st["nvariants"])
             for e in st["entries"]:
                 ctx.count("entry:" + e)
@@ -1778,10 +2186,10 @@ def run(ctx):
                         continue
                     seen_kinds.add(kind)
                     obj = {"spec": spec, "kind": kind, "message": msg, "step": label}
-                    if "spec_after_edit" in st:
-                        obj["spec_after_edit"] = st["spec_after_edit"]
+                    if "spec_current" in st:
+                        obj["spec_current"] = st["spec_current"]
                     obj.update(extra)
-                    if origin != "small" and not is_k2(obj):
+                    if origin != "small" and not is_k2(obj) and not is_k3(obj):
                         obj["spec"] = shrink(spec, kind)      # shrink only what will be reported
                     res_v = ctx.violation("C09 %s: %s" % (kind, msg), obj)
                     if res_v != "known":
@@ -1799,13 +2207,35 @@ def run(ctx):
     ctx.log("implementation + oracle done on %d steps; evaluating the model on %d" % (ctx.evaluations, len(terms)))
     if ok:
         flush(force=True)
+        hfut = executor.submit(ctx.coq_failing, "hist", "From PV Require Import Model.C09 Model.C09_api Model.C09_hist.", "",
+                               hterms, "fun h => Z.eqb (check_history h) 0", 40, 1500,
+                               "(marks * list hitem)%type") if hterms else None
         failing, err = [], None
         for lo, fut in futures:
             try:
                 failing += [lo + k for k in fut.result()]
             except RuntimeError as e:
                 err = str(e)
+        hfailing = []
+        if hfut is not None:
+            try:
+                hfailing = sorted(hfut.result())
+            except RuntimeError as e:
+                err = str(e)
         executor.shutdown()
+        if err is None:
+            ctx.obligation("correspondence: the state machine of Model/C09_hist.v (marks of the part now + registered "
+                           "segments; operations: marks changed through Part.add/remove, TimePoint methods or in place, "
+                           "add_segments, registered segments removed) run on the %d generated histories gives, at every "
+                           "step, the segment boundaries and the six path lists partitura returned at that step, and every "
+                           "generated history is within the hypothesis `disciplined` of history_reads_current_marks"
+                           % len(hterms), not hfailing, hfailing[:5])
+            for i in hfailing[:3]:
+                which = ctx.coq_eval("From PV Require Import Model.C09 Model.C09_api Model.C09_hist.", "check_history %s" % hterms[i])
+                ctx.violation("the part does not follow its history as the state machine does (check_history: k = the k-th "
+                              "step differs from the reading of the marks the part has then, -1 = history outside the "
+                              "documented use): %s" % which[-120:],
+                              {"spec": hkept[i], "kind": "history-correspondence"})
         if err is not None:
             ctx.obligation("correspondence: model evaluation", False, err[-1500:])
             ctx.violation("Coq could not evaluate the C09 model on the generated cases: " + err[-800:],
